@@ -14,7 +14,9 @@ SPECS = {"u8": ["", ">4", "<5", "^7", "03", "+", "x", "#x", "#010b"], "i32": [""
          "char": ["", ">3", "*<4"], "u16": ["", "06", "#06x"]}
 VALS = {"u8": ["0u8", "255u8", "7u8"], "i32": ["0i32", "-1i32", "i32::MIN", "i32::MAX"], "i64": ["i64::MIN", "i64::MAX", "-9i64"],
         "String": ['String::new()', 'String::from("pay")', 'String::from("\\u{e9}\\u{20ac}")', 'String::from("{brace}")'],
-        "bool": ["true", "false"], "char": ["'q'", "'\\u{e9}'"], "u16": ["65535u16", "0u16"]}
+        "bool": ["true", "false"], "char": ["'q'", "'\\u{e9}'"], "u16": ["65535u16", "0u16"], "usize": ["0usize", "3usize", "9usize"]}
+# width / precision taken from another field (`{text:>wd$}`, `{0:.1$}`): @ stands for the parameter's name or index
+PARAM_SPECS = {"String": [">@$", "<@$", ".@$", "*^@$", "@$.1"], "u8": [">@$", "0@$"], "i32": ["+@$", "<@$"], "char": [">@$"]}
 
 
 def canary(grp):
@@ -58,6 +60,23 @@ def interp_variant(rng, ident, kind):
         arg = str(f - 1) if kind == "tuple" else names[f - 1]
         lit += "{" + arg + (":" + spec if spec else "") + "}" + rng.choice(TEXTS)
         ph.append(dict(f=f, spec=spec))
+    # a usize field that serves as the width / precision of another field's placeholder (and is perhaps printed nowhere)
+    cands_p = [f for f in range(1, nf + 1) if tys[f - 1] in PARAM_SPECS]
+    if cands_p and rng.random() < 0.4:
+        f = rng.choice(cands_p)
+        pname = [n for n in SC.FIELD_NAMES if n not in names][0]
+        fields.append(field("usize", pname if kind == "named" else ""))
+        tys.append("usize")
+        names.append(pname)
+        pidx = len(fields)
+        tmpl = rng.choice(PARAM_SPECS[tys[f - 1]])
+        pref = pname if kind == "named" else str(pidx - 1)
+        arg = str(f - 1) if kind == "tuple" else names[f - 1]
+        lit += "{" + arg + ":" + tmpl.replace("@", pref) + "}" + rng.choice(TEXTS)
+        ph.append(dict(f=f, spec=tmpl.replace("@", pref), tmpl=tmpl, param=pidx))
+        if rng.random() < 0.3:
+            lit += "{" + pref + "}"
+            ph.append(dict(f=pidx, spec=""))
     v = variant(ident, kind, fields, ts=lit, ser=rng.choice([[], ["alias"]]))
     v["ph"] = ph
     v["vals"] = [[rng.choice(VALS[t]) for t in tys] for _ in range(2)]
@@ -90,6 +109,10 @@ def candidates(rng, sz):
     for k in range(sz["interp"] // 3):
         vs = [interp_variant(rng, idents[j], rng.choice(["tuple", "named"])) for j in range(3)]
         vs.append(variant("Plain"))
+        if k % 2:
+            # fixed names on payload variants declared AFTER interpolating ones (no state may carry over between variants)
+            vs.append(variant("FixedNamed", "named", [field("u8", "zq"), field("String", "zr")], ts=rng.choice([None, "sq", "a{{b}}"])))
+            vs.append(variant("FixedTuple", "tuple", [field("u8")], ser=rng.choice([[], ["ft", "f"]])))
         cands.append(enum(did, vs, prefix=rng.choice([None, None, "p:", "é"]), style=rng.choice(["none", "snake_case"])))
         did += 1
     return cands
